@@ -5,15 +5,30 @@ V = os.path.dirname(os.path.dirname(os.path.abspath(__file__)))
 sys.path.insert(0, V + '/driver'); sys.path.insert(0, V + '/extract')
 import extract as EX, verus_run as VR
 from driver_main import load_unit_cfg
-unit = sys.argv[1] if len(sys.argv) > 1 else 'frost_core'
-cfg = load_unit_cfg(unit); cfg['crate_name'] = 'unit'; cfg['canary'] = True
+args = [a for a in sys.argv[1:] if not a.startswith('-')]
+unit = args[0] if args else 'frost_core'
+lemmas = '--lemmas' in sys.argv
+cfg = load_unit_cfg(unit); cfg['crate_name'] = 'unit'; cfg['canary'] = not lemmas; cfg['lemma_canary'] = lemmas
 text, meta = EX.build_unit(cfg)
-b = V + '/build/canary_' + unit
+b = V + '/build/canary_' + unit + ('_lemmas' if lemmas else '')
 os.makedirs(b, exist_ok=True)
 open(b + '/unit.rs', 'w').write(text)
 r = VR.run_verus(b + '/unit.rs', b + '/vlog')
 bad = []
 n = 0
+if lemmas:
+    import re
+    names = re.findall(r'/\*@LCANARY (\w+)\*/', text)
+    for nm in names:
+        n += 1
+        hits = [(k, st) for k, st in r.fn_status.items() if k.split('::')[-1] == nm]
+        if not hits or any(st['success'] for k, st in hits):
+            bad.append(nm)
+    if r.json is None or not names:
+        print(r.raw_stderr[-3000:])
+        bad.append('(verus did not run)')
+    print('lemma canary: %d proof fns, %d did NOT fail (must be 0): %s' % (n, len(bad), bad))
+    sys.exit(1 if bad else 0)
 for f in meta['functions']:
     if f['mode'] == 'verified':
         n += 1
